@@ -36,6 +36,8 @@ def index_hazards(evs):
         if e.kind != "CONSTSEQ":
             continue
         key, size = e.a["key"], e.a["size"]
+        if any(x.kind == "CONSTMAP" and x.node is e.node for x in evs):
+            continue    # a table of names: the walk itself forks the IndexError path there (handled or escaping, rule E3 sees it)
         guarded = False
         for c in e.conds:
             t, pol = c.term, c.pol
